@@ -645,4 +645,4 @@ _HINT = {
 
 
 def THEOREM_HINT(name):
-    return ["EpModel.C12." + t for t in _HINT.get(name, [])]
+    return ["EpModel.Props.C12." + t for t in _HINT.get(name, [])]
